@@ -37,6 +37,10 @@ def configs(tier):
             out.append(dict(kind="tables", shape=list(shape)))
     for shape in ([3], [1], [2, 3], [1, 4], [2, 1, 3], [2, 2, 2]):
         out.append(dict(kind="image", shape=shape))
+    # image-sized grids (tens of thousands of cells): the same statements, evaluated vectorised on the
+    # concrete tables (no symbolic index here: the tables are far too large to load into the solver)
+    for shape in ([[182, 181]] if tier == "quick" else [[182, 181], [260, 250], [32, 33, 32], [40000]]):
+        out.append(dict(kind="large", shape=shape))
     return out
 
 
@@ -65,6 +69,8 @@ def body(cfg):
     dim = len(shape)
     if cfg["kind"] == "image":
         return body_image(cfg, darsia, shape, dim)
+    if cfg["kind"] == "large":
+        return body_large(cfg, darsia, shape, dim)
     grid = darsia.Grid(shape, [0.5, 0.25, 2.0][:dim])
     nc = int(np.prod(shape))
     nfa = [O.num_faces_axis(d, shape) for d in range(dim)]
@@ -147,6 +153,32 @@ def body(cfg):
     # voxel sizes / face areas
     hs = [0.5, 0.25, 2.0][:dim]
     S.claim("face_areas", S.eq([grid.face_vol[d] for d in range(dim)], [float(np.prod([hs[e] for e in range(dim) if e != d])) for d in range(dim)]))
+
+
+def body_large(cfg, darsia, shape, dim):
+    grid = darsia.Grid(shape, [0.5, 0.25, 2.0][:dim])
+    nc = int(np.prod(shape))
+    nfa = [O.num_faces_axis(d, shape) for d in range(dim)]
+    nf = sum(nfa)
+    S.claim("large_counts_follow_from_shape", int(grid.num_cells) == nc and int(grid.num_faces) == nf)
+    conn = np.asarray(grid.connectivity).astype(np.int64)
+    rev = np.asarray(grid.reverse_connectivity).astype(np.int64)
+    ok_pairs, ok_inv = True, True
+    stride = 1
+    for d in range(dim):
+        faces = np.asarray(grid.faces[d]).ravel("F").astype(np.int64)
+        c = conn[faces]
+        ok_pairs = ok_pairs and bool(np.all(c[:, 0] >= 0) and np.all(c[:, 1] < nc) and np.all(c[:, 1] - c[:, 0] == stride))
+        if len(faces):
+            # cell -> face lookup is the inverse: the upper face of the lower cell and the lower face of the upper cell
+            ok_inv = ok_inv and bool(np.array_equal(rev[d, c[:, 0], 1], faces) and np.array_equal(rev[d, c[:, 1], 0], faces))
+        r = rev[d]
+        ok_inv = ok_inv and bool(np.all((r >= -1) & (r < nf)) and int(np.sum(r >= 0)) == 2 * len(faces))
+        stride *= shape[d]
+    S.claim("large_each_face_joins_increasing_neighbours_along_its_axis", ok_pairs)
+    S.claim("large_cell_to_face_lookup_is_the_inverse_with_no_face_only_on_the_boundary", ok_inv)
+    allf = np.sort(np.concatenate([np.asarray(grid.faces[d]).ravel() for d in range(dim)])) if nf else np.zeros(0, dtype=int)
+    S.claim("large_every_face_numbered_exactly_once", bool(np.array_equal(allf, np.arange(nf))))
 
 
 def body_image(cfg, darsia, shape, dim):
